@@ -22,6 +22,7 @@ type c08Prog struct {
 	p            *gen.Program
 	constOOB     bool // some out-of-range access uses a compile-time-known index
 	appendsFirst bool
+	wideIdx      bool // some index expression is not of type i32
 }
 
 func c08Generate(rng *rand.Rand, withStrings bool) c08Prog {
@@ -43,21 +44,52 @@ func c08Generate(rng *rand.Rand, withStrings bool) c08Prog {
 	length := n
 	tn := 0
 	oob := false
+	idfs := map[string]*gen.Func{"i32": idf}
+	idfOf := func(t *gen.Type) *gen.Func {
+		if f, ok := idfs[t.String()]; ok {
+			return f
+		}
+		f := &gen.Func{Name: "ix" + t.String(), Params: []gen.Param{{Name: "k", T: t}}, Ret: t, Body: []gen.Stmt{&gen.Return{X: &gen.Var{Name: "k", T: t}}}}
+		idfs[t.String()] = f
+		prog.Funcs = append(prog.Funcs, f)
+		return f
+	}
+	// the index expression has one of the eight integer types that can represent k (i32 half of the time)
 	mkIndex := func(k int64) (gen.Expr, bool) { // returns the expression and whether it is compile-time known
+		it := I32
+		if rng.IntN(2) == 0 {
+			var fit []*gen.Type
+			for _, t := range []*gen.Type{gen.I8, gen.I16, gen.I32, gen.I64, gen.U8, gen.U16, gen.U32, gen.U64} {
+				if gen.Norm(t, k) == k && (t.Signed || k >= 0) {
+					fit = append(fit, t)
+				}
+			}
+			if len(fit) > 0 {
+				it = fit[rng.IntN(len(fit))]
+			}
+		}
+		if it != I32 {
+			out.wideIdx = true
+		}
 		switch rng.IntN(3) {
 		case 0:
-			return lit(I32, k), true
+			if it == I32 {
+				return lit(I32, k), true
+			}
+			fallthrough
 		case 1:
 			tn++
 			name := fmt.Sprintf("k%d", tn)
-			main = append(main, &gen.Let{Name: name, T: I32, Init: lit(I32, k)})
-			return &gen.Var{Name: name, T: I32}, true
+			main = append(main, &gen.Let{Name: name, T: it, Init: lit(it, k), Annot: true})
+			return &gen.Var{Name: name, T: it}, true
 		}
-		return &gen.Call{Fn: idf, Args: []gen.Expr{lit(I32, k)}}, false
+		return &gen.Call{Fn: idfOf(it), Args: []gen.Expr{lit(it, k)}}, false
 	}
 	pickIdx := func() int64 {
 		l := int64(length)
-		c := []int64{-l - 1, -l, -1, 0, l - 1, l, l + 1, 1 << 20, -(1 << 20)}
+		c := []int64{-l - 1, -l, -1, 0, l - 1, l, l + 1, 1 << 20, -(1 << 20),
+			// values that only 64-bit (or u32) index types hold; several alias a valid index when truncated to 32 bits
+			1 << 32, 1<<32 + l - 1, 1<<32 + 1, -(1 << 32), -(1 << 32) + l - 1, -(1 << 32) - 1, 1<<32 - 1, 1 << 31, 1<<31 + l, 1 << 62, -(1 << 62), 1 << 33}
 		if length > 0 && rng.IntN(100) < 75 { // mostly valid for the current length
 			k := int64(rng.IntN(length))
 			if rng.IntN(3) == 0 {
@@ -147,7 +179,7 @@ func c08Generate(rng *rand.Rand, withStrings bool) c08Prog {
 		w := &gen.Var{Name: "w", T: gen.TStr}
 		for q := 0; q < 1+rng.IntN(3) && !oob; q++ {
 			l := int64(len(sv))
-			k := []int64{0, l - 1, -1, -l, l, -l - 1, int64(rng.IntN(len(sv)))}[rng.IntN(7)]
+			k := []int64{0, l - 1, -1, -l, l, -l - 1, int64(rng.IntN(len(sv))), 1 << 32, 1<<32 + 1, -(1 << 32), 1<<32 - 1}[rng.IntN(11)]
 			ie, known := mkIndex(k)
 			tn++
 			name := fmt.Sprintf("ch%d", tn)
@@ -177,7 +209,7 @@ func btoi(b bool) int {
 
 func checkC08(c *Ctx) error {
 	r := c.R
-	r.Rule = "histories over one dynamic array (literal of 0-5 elements, appends crossing the growth thresholds, element widths 1-8 bytes, get/set/len, final iteration) and one string, with indices that are literals, let-bound constants or returned by an opaque function, drawn from {-len-1,-len,-1,0,len-1,len,len+1,+-2^20} or valid for the current length; compiled for native and wasm and compared with the reference list/string model including the panic point and the lines printed before it (stdout is a file). A compile-time rejection is accepted only if the reference panics at a compile-time-known index. non-trivial = a distinct history whose verdict was decided on at least one target"
+	r.Rule = "histories over one dynamic array (literal of 0-5 elements, appends crossing the growth thresholds, element widths 1-8 bytes, get/set/len, final iteration) and one string, with indices that are literals, let-bound constants or returned by an opaque function, of every integer type i8..u64 that can hold the value, drawn from {-len-1,-len,-1,0,len-1,len,len+1,+-2^20, +-2^32 (+ a valid index), 2^32-1, 2^31, +-2^62} or valid for the current length; compiled for native and wasm and compared with the reference list/string model including the panic point and the lines printed before it (stdout is a file). A compile-time rejection is accepted only if the reference panics at a compile-time-known index. non-trivial = a distinct history whose verdict was decided on at least one target"
 	r.Assumptions = []string{"the panic message must contain 'index out of bounds'", "string indexing prints the byte as a character"}
 	n := c.N(50, 1200)
 	runProbes(c, "C08", core.Native)
